@@ -155,6 +155,51 @@ ModelShift(A, b, s, sol, z) ==
    /\ \A i \in 1..Rows(A) : t.yfit[i] = XAdd(sol.yfit[i], OfInt(az[i]))
 ShiftZ == <<1, -1, 2>>
 
+(* ---- THE COMPARISON RULE for floating-point observations ----                             *)
+(* "Agreeing with an independent solver" is agreement to a tolerance measured against the   *)
+(* NATURAL SCALE of each quantity, not against |expected| alone: a backward-stable solver    *)
+(* returns round-off of the size eps * (natural scale) where the exact value happens to be   *)
+(* zero (b orthogonal to a column), so exact zeros are not demanded beyond Tol * scale.      *)
+(*   coefficient j : scale_j = sum_k |M^-1|_jk (|A|^T W |b|)_k        with M = A^T W A        *)
+(*   fitted value i: scale_i = sum_j |A_ij| scale_j                                           *)
+(*   chi-square    : Q = sum_i w_i (|b_i| + scale_i)^2; chi2 is a SUM OF SQUARED RESIDUALS,   *)
+(*                   so it is judged relative to itself, plus round-off level (not Tol level) *)
+(*                   multiples of Q: 1e-9 chi2 + 256 eps sqrt(chi2 Q) + (1e-11)^2 Q          *)
+(*   covariance jk : sqrt(covar_jj covar_kk) (>= |covar_jk|), variance: itself                *)
+(* An observation obs of the exact value e agrees iff |obs - e| <= Tol * max(|e|, scale);     *)
+(* the harness reports dev = the largest |obs - e| / (Tol * max(|e|, scale)) in whole units.  *)
+NatScaleW(A, b, w) ==
+  LET G == NormalW(A, w)
+      d == Abs(Det(G))
+      ad == Adj(G)
+      M == Cols(A)
+      ar == [k \in 1..M |-> ISum([i \in 1..Rows(A) |-> w[i] * Abs(A[i][k]) * Abs(b[i])])]
+      sn == [j \in 1..M |-> ISum([k \in 1..M |-> Abs(ad[j][k]) * ar[k]])]
+  IN [x |-> [j \in 1..M |-> R(sn[j], d)],
+      y |-> [i \in 1..Rows(A) |-> R(ISum([j \in 1..M |-> Abs(A[i][j]) * sn[j]]), d)]]
+NatScale(A, b, s) == NatScaleW(A, b, WeightsOf(s))
+NatScaleChi(A, b, w, nat) == RSum([i \in 1..Rows(A) |-> XMul(OfInt(w[i]), RSq(XAdd(OfInt(Abs(b[i])), nat.y[i])))])
+AgreesAtNaturalScale(dev) == dev <= 1
+(* the scale really bounds the solution (triangle inequality), so max(|e|, scale) = scale     *)
+(* for coefficients and fitted values; stated on the common-denominator numerators            *)
+ScaleBoundsSolution(A, b, w) ==
+  LET G == NormalW(A, w)
+      ad == Adj(G)
+      r == RhsW(A, b, w)
+      M == Cols(A)
+      ar == [k \in 1..M |-> ISum([i \in 1..Rows(A) |-> w[i] * Abs(A[i][k]) * Abs(b[i])])]
+      xn == [j \in 1..M |-> ISum([k \in 1..M |-> ad[j][k] * r[k]])]
+      sn == [j \in 1..M |-> ISum([k \in 1..M |-> Abs(ad[j][k]) * ar[k]])]
+  IN /\ \A j \in 1..M : Abs(xn[j]) <= sn[j]
+     /\ \A i \in 1..Rows(A) : Abs(ISum([j \in 1..M |-> A[i][j] * xn[j]])) <= ISum([j \in 1..M |-> Abs(A[i][j]) * sn[j]])
+(* and it is homogeneous like the solution itself (so the unit-scaled replays rescale it too) *)
+ScaleHomogeneous(A, b, s, cc) ==
+  LET n0 == NatScale(A, b, s) IN
+  /\ \A j \in 1..Cols(A) : NatScale(A, ScaleSeq(b, cc), s).x[j] = RTimes(n0.x[j], cc, 1)
+  /\ NatScale(A, b, ScaleSeq(s, cc)).x = n0.x
+  /\ \A j \in 1..Cols(A) : NatScale(ScaleMat(A, cc), b, s).x[j] = RTimes(n0.x[j], 1, cc)
+
+
 (* A recorded call on a FLOAT system (high signal-to-noise or noise-free data); the harness *)
 (* measures, from the returned attributes only: neg (chi2 < 0), disc = | chi2 - sum(((b -   *)
 (* yfit) sqivar)^2) | in units of the residual-scale tolerance, grad = normalised gradient  *)
